@@ -3,8 +3,6 @@ site: which parser deviates (direction) AND the syntactic feature of the source 
 signature: fn(op, impl, model, args) -> bool"""
 import re
 
-_UN = r"(?:Plus|Minus|Not|BitNot)"
-_MUL = r"(?:Mul|Div|Mod)"
 _TRIVIA = r"(?:\s|/\*.*?\*/|//[^\n]*\n|#[^\n]*\n)*"
 
 
@@ -116,21 +114,12 @@ def c06_unary_looser_than_mul(op, impl, model, args):
         if not _explained_by_unary_rotation(ir, peg):
             return False
         # the rest of the statement (rowan verdict, trivia invariance) must hold, or the rowan verdict
-        # must itself be one of the listed rowan deviations (two findings in one text, e.g.
-        # `- a . b * import c ( 1 )`: unary rotation AND `import` without a string literal)
-        rowan_ok = op.get("rowan") is True or "(Plus " in ir or _rowan_deviation_listed(op)
+        # must itself be the listed rowan deviation (two findings in one text, e.g. `~ + a * b`:
+        # unary rotation AND unary plus, which the rowan parser always reports)
+        rowan_ok = op.get("rowan") is True or (op.get("rowan") is False and "(Plus " in ir)
         base_ok = "base" not in op or op["base"] == ir
         return rowan_ok and base_ok
     return False
-
-
-def _rowan_deviation_listed(op):
-    """the rowan verdict of a text both evaluator parsers accept is explained by one of the listed
-    rowan findings (evaluated as if the two evaluator trees were equal)"""
-    shadow = dict(op, peg=op.get("ir"))
-    return any(f(shadow, None, None, {}) for f in (
-        c06_rowan_no_unary_plus, c06_rowan_local_assert_only_at_expression_start,
-        c06_rowan_import_requires_string_literal))
 
 
 def _only_rowan_deviates(op):
@@ -169,46 +158,6 @@ def c06_rowan_accepts_experimental_syntax(op, impl, model, args):
              or "expected end of file, got '?'" in op.get("ir_msg", ""))
 
 
-def c06_rowan_lenient_comprehension(op, impl, model, args):
-    """rowan parser accepts comprehension forms the grammar rejects: `if` before the first `for`,
-    a trailing comma after the comprehension specs, an object comprehension without a field"""
-    s = op.get("src", "")
-    msg = op.get("ir_msg", "")
-    return _only_rowan_deviates(op) and not _acc(op) and op.get("rowan") is True \
-        and re.search(r"\b(?:if|for)\b", s) is not None and re.search(r"[\[{]", s) is not None \
-        and (msg in ("expected ']', got 'if'", "expected '}', got 'if'", "expected ']', got ','",
-                     "expected '}', got ','", "missing object comprehension field",
-                     "expected ',', got 'if'")
-             or msg.startswith("expected ']', got 'if'") or msg.startswith("expected '}', got 'if'"))
-
-
-def c06_rowan_plus_before_method_params(op, impl, model, args):
-    """rowan parser accepts `{ a + (x): 1 }`"""
-    return _only_rowan_deviates(op) and not _acc(op) and op.get("rowan") is True \
-        and re.search(r"\+" + _TRIVIA + r"\(", op.get("src", "")) is not None \
-        and op.get("ir_msg", "").startswith("expected ':', got '('")
-
-
-def c06_rowan_local_assert_only_at_expression_start(op, impl, model, args):
-    """rowan parser handles `local`/`assert` only at the start of an expression, not as the
-    operand of an operator"""
-    return _only_rowan_deviates(op) and _acc(op) and op.get("rowan") is False \
-        and re.search(r"\((?:" + _UN + r"|[A-Z]\w+ \S+) \((?:local|assertexpr) ", op["ir"]) is not None \
-        and "(Plus " not in op["ir"]
-
-
-def c06_rowan_import_requires_string_literal(op, impl, model, args):
-    """rowan parser requires a string token after `import` (it used to panic, since the C20 repair
-    it reports "missing string literal") while the evaluator's parsers accept any expression there;
-    the text must contain an import keyword that is NOT directly followed by a string literal
-    (`import a`, `import importstr "a.txt"`)"""
-    return _only_rowan_deviates(op) and _acc(op) \
-        and (op.get("rowan") is False or (isinstance(op.get("rowan"), str) and "Text::can_cast" in op["rowan"])) \
-        and "(import " in op["ir"] \
-        and any(re.match(_TRIVIA + r"[\"'@|]", op.get("src", "")[m.end():]) is None
-                for m in re.finditer(r"\bimport(?:str|bin)?\b", op.get("src", "")))
-
-
 def _peg_lenient(op):
     return _agree(op) and not _acc(op) and _peg_acc(op)
 
@@ -221,31 +170,3 @@ def c06_local_trailing_comma(op, impl, model, args):
         and re.match(r"expected identifier, got ';'", op.get("ir_msg", "")) is not None
 
 
-def c06_peg_number_leading_zero(op, impl, model, args):
-    """PEG `number` rule accepts leading zeros (`01`, `007`, `0_1`)"""
-    return _peg_lenient(op) and re.search(r"(?<![\w.])0[0-9_]", op.get("src", "")) is not None \
-        and re.match(r"expected .*, got (number|identifier \"_)", op.get("ir_msg", "")) is not None
-
-
-def c06_peg_number_dot_identifier(op, impl, model, args):
-    """PEG reads `1.a` as field access on a number; the lexer (and the grammar) reject junk after
-    the decimal point"""
-    return _peg_lenient(op) and re.search(r"[0-9]\.[A-Za-z_]", op.get("src", "")) is not None \
-        and "junk after decimal point" in op.get("ir_msg", "")
-
-
-def c06_peg_text_block_indent_by_length(op, impl, model, args):
-    """PEG text-block rule compares the indentation of later lines by length only, so a line
-    indented with different whitespace characters is accepted"""
-    s = op.get("src", "")
-    return _peg_lenient(op) and "|||" in s and "\t" in s and " " in s \
-        and op.get("ir_msg", "") in ("text block not terminated with |||", "invalid string block", "unterminated text block",
-                                      "missing termination of text block")
-
-
-def c06_ir_spaced_visibility_colons(op, impl, model, args):
-    """ir-parser (token-level `:` `:` `:`) accepts `a : : 1` as `a :: 1`; the grammar's `::`/`:::`
-    are single tokens and the PEG grammar rejects the spaced form"""
-    return _agree(op) and _acc(op) and op.get("peg") == "reject" \
-        and re.search(r":(?:\s|/\*.*?\*/)+:", op.get("src", "")) is not None \
-        and re.search(r"\(field (?:\"(?:\\.|[^\"\\])*\"|\S+)(?: \+)? (?:Hidden|Unhide) ", op["ir"]) is not None
